@@ -166,8 +166,8 @@ def h_main_iteration(I, fi):
         rs = I_.eval(node.iter, fr)
         from pyvc.builtins_model import SymSeq as _SS
 
-        P.check("trace.loop-range", isinstance(rs, _SS) and P.z(rs.length) == P.z(n_it) and I_.equal(rs.core_at(I_, Num.const(0)), 0) is True and
-                I_.equal(rs.core_at(I_, Num.const(5)), 5) is True, "the main loop runs i = 0, 1, ..., num_iters - 1", kind="post")
+        P.check("trace.loop-range", dsl.conj(isinstance(rs, _SS) and I_.equal(rs.core_at(I_, Num.const(0)), 0) is True and
+                I_.equal(rs.core_at(I_, Num.const(5)), 5) is True, P.z(rs.length) == P.z(n_it)), "the main loop runs i = 0, 1, ..., num_iters - 1", kind="post")
         # arbitrary iteration i with an arbitrary current tree
         i = alg.sym("i", "Int")
         P.assume(z3.And(P.z(i) >= 0, P.z(i) < P.z(n_it)))
